@@ -10,6 +10,7 @@ CONSTANTS
   One = 2
   Names <- NoIdx
   CondIdx <- NoIdx
+  ElifIdx <- NoIdx
   DefIdx <- AllDefs
   TextIdx <- AllTexts
   MaxLines = 14
